@@ -170,7 +170,9 @@ fn run(ctx: &Ctx) {
         }
         Ok(())
     });
-    ctx.run_fn("static_claims", true, "source scan for `unsafe` / forbid(unsafe_code); compile-time Send + Sync assertions", static_claims);
+    ctx.run_fn("static_claims", true, "source scan for `unsafe` / forbid(unsafe_code), also after macro expansion in each feature set; compile-time Send + Sync assertions per feature set", static_claims);
+    let per = ctx.pick(40_000, 1_000_000) as usize;
+    ctx.run_fn("shared_registry", false, &format!("8 threads x {} rounds of every lookup route on the shared static registry", per), move |obs| shared_registry(obs, per));
 }
 
 /// replay of one differential case: the tape is the input itself
@@ -204,7 +206,7 @@ fn static_claims(obs: &mut Obs) -> R {
         let text = std::fs::read_to_string(f).unwrap_or_default();
         for (n, line) in text.lines().enumerate() {
             obs.eval();
-            let code = line.split("//").next().unwrap_or("");
+            let code = strip_strings(line.split("//").next().unwrap_or(""));
             if code.contains("forbid(unsafe_code)") {
                 continue;
             }
@@ -214,6 +216,53 @@ fn static_claims(obs: &mut Obs) -> R {
         obs.nontrivial(fnv64(f.to_string_lossy().as_bytes()));
     }
     obs.sample(json!({"files_scanned": files.len()}));
+    // "contains none" also after macro expansion: a derive can bring in `unsafe fn` / `unsafe impl` without the keyword appearing in the
+    // sources, and the unsafe_code lint is not reported for code produced by an external derive. The crate is expanded with the nightly
+    // toolchain (-Zunpretty=expanded) once per buildable feature set and every `unsafe` token outside string literals and doc text is
+    // reported, except the two forms the compiler's own derives emit (`unsafe impl ::core::clone::TrivialClone for T { }` and the
+    // `_ => unsafe { ::core::intrinsics::unreachable() }` arm of a derived comparison).
+    for (cfg, flags) in [("no_std+alloc", &["--no-default-features"][..]), ("std", &[][..]), ("std+serialize", &["--features", "serialize"][..])] {
+        obs.eval();
+        let out = Command::new("cargo")
+            .args(["+nightly", "rustc", "--lib", "--offline", "-q"])
+            .args(flags)
+            .args(["--", "-Zunpretty=expanded"])
+            .current_dir(&repo)
+            .env("CARGO_TARGET_DIR", harness_dir().join("target-expand"))
+            .env("CARGO_NET_OFFLINE", "true")
+            .env_remove("RUSTFLAGS")
+            .output()
+            .map_err(|e| Fail { sig: "harness:cargo".into(), msg: format!("{}", e) })?;
+        if !out.status.success() || out.stdout.len() < 10_000 {
+            // no nightly toolchain / expansion unavailable: this part is skipped and says so (never a violation)
+            obs.class("expansion-unavailable");
+            obs.sample(json!({"macro_expansion": "unavailable", "feature_set": cfg, "stderr": String::from_utf8_lossy(&out.stderr).lines().last().unwrap_or("").to_string()}));
+            continue;
+        }
+        let text = String::from_utf8_lossy(&out.stdout);
+        let mut lines_scanned = 0u64;
+        for (n, line) in text.lines().enumerate() {
+            let tl = line.trim_start();
+            if tl.starts_with("//") || tl.starts_with("#[doc") || tl.starts_with("#![doc") {
+                continue;
+            }
+            lines_scanned += 1;
+            let code = strip_strings(line.split("//").next().unwrap_or(""));
+            if code.contains("forbid(unsafe_code)") {
+                continue;
+            }
+            let t = code.trim();
+            // the two forms the compiler's own derives emit (Clone/Copy marker impl; the impossible arm of a derived comparison on an enum)
+            if (t.starts_with("unsafe impl ::core::clone::TrivialClone for ") && t.ends_with("{ }")) || t == "_ => unsafe { ::core::intrinsics::unreachable() }" {
+                continue;
+            }
+            let has = code.split(|c: char| !(c.is_alphanumeric() || c == '_')).any(|w| w == "unsafe");
+            ensure!(!has, format!("C18:static:unsafe-after-expansion:{}", cfg), "with feature set {} the macro-expanded crate contains unsafe code (expanded line {}): {}", cfg, n + 1, line.trim());
+        }
+        obs.evals_add(lines_scanned);
+        obs.nontrivial(fnv64(format!("expanded:{}", cfg).as_bytes()));
+        obs.sample(json!({"macro_expansion": "scanned", "feature_set": cfg, "expanded_lines": lines_scanned}));
+    }
     // every public value type is Send + Sync: a probe package holding one `assert_send_sync::<T>()` per type is type-checked now
     // (once per buildable feature set: a cfg-dependent field type can make a type !Send in one configuration only)
     for (cfg, flags) in [("no_std+alloc", &[][..]), ("std", &["--features", "std"][..]), ("std+serialize", &["--features", "std,serialize"][..])] {
@@ -243,5 +292,96 @@ fn static_claims(obs: &mut Obs) -> R {
     let ids: Vec<u16> = (0..4u16).map(|i| 0x1301 + i).collect();
     let names: Vec<Option<&'static str>> = std::thread::scope(|s| ids.iter().map(|id| s.spawn(move || TlsCipherSuite::from_id(*id).map(|c| c.name))).collect::<Vec<_>>().into_iter().map(|h| h.join().unwrap()).collect());
     ensure!(names.iter().all(|n| n.is_some()), "C18:static:registry-threads", "registry lookups from threads: {:?}", names);
+    Ok(())
+}
+
+/// blank out the contents of string literals (a message that mentions the word is not code)
+fn strip_strings(code: &str) -> String {
+    let mut out = String::with_capacity(code.len());
+    let mut in_str = false;
+    let mut esc = false;
+    for c in code.chars() {
+        if in_str {
+            if esc {
+                esc = false;
+            } else if c == '\\' {
+                esc = true;
+            } else if c == '"' {
+                in_str = false;
+                out.push(c);
+            }
+        } else {
+            if c == '"' {
+                in_str = true;
+            }
+            out.push(c);
+        }
+    }
+    out
+}
+
+/// "the static cipher registry can be shared across threads": every lookup route used from 8 threads at once, each thread walking the
+/// registry in its own order and interleaving unknown ids and names; every answer is compared with the registry text file.
+/// (The schedule belongs to the OS, so a race may need many lookups to show: the workload is fixed, 8 x `per_thread` lookups.)
+fn shared_registry(obs: &mut Obs, per_thread: usize) -> R {
+    let tb = super::c12::tabs()?;
+    let rows = &tb.file;
+    let n = rows.len();
+    let barrier = std::sync::Barrier::new(8);
+    let results: Vec<Result<u64, (String, String)>> = std::thread::scope(|s| {
+        let hs: Vec<_> = (0..8usize)
+            .map(|ti| {
+                let barrier = &barrier;
+                s.spawn(move || {
+                    barrier.wait();
+                    let mut done = 0u64;
+                    // thread ti walks the rows with its own stride (coprime with 352 = 2^5 * 11)
+                    let stride = [1usize, 3, 5, 7, 9, 13, 15, 17][ti];
+                    for k in 0..per_thread {
+                        let r = &rows[(ti * 41 + k * stride) % n];
+                        let by_name = TlsCipherSuite::from_name(&r.name);
+                        match by_name {
+                            Some(c) if c.id.0 == r.id && c.name == r.name => {}
+                            o => return Err(("C18:threads:from_name".to_string(), format!("thread {}: from_name({}) returned {:?} while other threads were looking up other names", ti, r.name, o.map(|c| (c.id.0, c.name))))),
+                        }
+                        let by_try = <&'static TlsCipherSuite>::try_from(r.name.as_str()).ok();
+                        match by_try {
+                            Some(c) if c.id.0 == r.id && c.name == r.name => {}
+                            o => return Err(("C18:threads:TryFrom<&str>".to_string(), format!("thread {}: try_from({}) returned {:?}", ti, r.name, o.map(|c| (c.id.0, c.name))))),
+                        }
+                        match TlsCipherSuite::from_id(r.id) {
+                            Some(c) if c.id.0 == r.id && c.name == r.name => {}
+                            o => return Err(("C18:threads:from_id".to_string(), format!("thread {}: from_id({:#06x}) returned {:?}", ti, r.id, o.map(|c| (c.id.0, c.name))))),
+                        }
+                        match TlsCipherSuiteID(r.id).get_ciphersuite() {
+                            Some(c) if c.id.0 == r.id => {}
+                            o => return Err(("C18:threads:get_ciphersuite".to_string(), format!("thread {}: get_ciphersuite({:#06x}) returned {:?}", ti, r.id, o.map(|c| (c.id.0, c.name))))),
+                        }
+                        // unknown id / name in between
+                        let unk = 0x4000u16 + ((k * 7 + ti) % 0x1000) as u16;
+                        if TlsCipherSuite::from_id(unk).is_some() && !rows.iter().any(|x| x.id == unk) {
+                            return Err(("C18:threads:from_id:phantom".to_string(), format!("thread {}: from_id({:#06x}) returned a suite", ti, unk)));
+                        }
+                        if let Some(c) = TlsCipherSuite::from_name(&r.name[..r.name.len() - 1]) {
+                            if c.name != &r.name[..r.name.len() - 1] {
+                                return Err(("C18:threads:from_name:phantom".to_string(), format!("thread {}: from_name({}) returned {}", ti, &r.name[..r.name.len() - 1], c.name)));
+                            }
+                        }
+                        done += 6;
+                    }
+                    Ok(done)
+                })
+            })
+            .collect();
+        hs.into_iter().map(|h| h.join().unwrap_or_else(|_| Err(("panic:shared_registry".to_string(), "a lookup thread panicked".to_string())))).collect()
+    });
+    for r in results {
+        match r {
+            Ok(d) => obs.evals_add(d),
+            Err((sig, msg)) => return fail(sig, msg),
+        }
+    }
+    obs.nontrivial(per_thread as u64);
+    obs.sample(json!({"threads": 8, "lookups_per_thread": per_thread * 6, "routes": ["from_name", "TryFrom<&str>", "from_id", "get_ciphersuite"]}));
     Ok(())
 }
